@@ -414,6 +414,69 @@ fn evaluate(c: &Case) -> (Vec<Fail>, Option<(Outcome, Reference)>) {
 }
 
 // ------------------------------------------------------------------------------------------
+// the two formerly non-terminating families (repair bdb775f bounded the line search): every fit must RETURN.
+//   alpha = 0 exactly (inside the statement "alpha >= 0"): the known finding `lasso-alpha-zero-err` is exactly
+//     "all settings valid, alpha == 0, outcome Err(Exceeded maximum number of iteration ...)"; anything else on such
+//     an input (hang, panic, another Err, Ok with a non-optimal w) is a failure;
+//   large scale (|y| at 1e8..1e12 x unit, alpha in its own range or following the scale): a hang or panic is a failure;
+//     Err / non-optimal Ok there is the finding `lasso-large-scale-err` IF KNOWN_FINDINGS.txt lists it, otherwise it is
+//     only counted (reported to the coordinator; the harness must not invent ids).
+// ------------------------------------------------------------------------------------------
+const LS_ERR: &str = "Exceeded maximum number of iteration for interior point optimizer";
+fn finding_listed(id: &str) -> bool {
+    let cands = [format!("{}/../KNOWN_FINDINGS.txt", env!("CARGO_MANIFEST_DIR")), "/verif/KNOWN_FINDINGS.txt".to_string()];
+    for c in cands.iter() {
+        if let Ok(t) = std::fs::read_to_string(c) {
+            return t.lines().any(|l| l.starts_with("finding:") && l.contains("property=C08") && l.contains(&format!("id={} ", id)));
+        }
+    }
+    false
+}
+/// returns the failures; `known` receives (id, what) when exactly the finding's predicate held
+fn evaluate_returns(c: &Case, family: &str, out: &mut Out) -> Vec<Fail> {
+    let mut fails = vec![];
+    let who = if c.enet { "elastic net" } else { "lasso" };
+    let rf = reference(c, &c.y);
+    match run_fit(c, &c.y) {
+        Outcome::Timeout => fails.push(Fail { oracle: "termination", what: format!("{}: fit did not return within the watchdog ({})", who, family) }),
+        Outcome::Panic(m) => fails.push(Fail { oracle: "no_panic", what: format!("{}: fit panicked ({}): {}", who, family, m) }),
+        Outcome::Err(e, _) => {
+            if family == "alpha-zero" && c.alpha == 0.0 && e.contains(LS_ERR) {
+                out.known("lasso-alpha-zero-err", &format!("{}::fit with alpha = 0 returns Err({})", if c.enet { "ElasticNet" } else { "Lasso" }, LS_ERR));
+                out.count("known:lasso-alpha-zero-err");
+            } else if family == "large-scale" && e.contains(LS_ERR) {
+                if finding_listed("lasso-large-scale-err") {
+                    out.known("lasso-large-scale-err", &format!("fit at large scale (n*alpha >= 1e7 or |y - mean y|^2 >= 1e13) returns Err({})", LS_ERR));
+                    out.count("known:lasso-large-scale-err:Err");
+                } else {
+                    out.count("observed:large-scale:Err(line search exhausted) [reported, no id listed]");
+                }
+            } else {
+                fails.push(Fail { oracle: "valid_input_fits", what: format!("{}: fit returned Err on a valid input ({}): {}", who, family, e) });
+            }
+        }
+        Outcome::Ok(f, _) => {
+            let mut sub = vec![];
+            check_fit(c, &c.y, &f, &rf, &mut sub);
+            if family == "large-scale" && sub.iter().all(|s| s.oracle == "near_optimal") && !sub.is_empty() {
+                if finding_listed("lasso-large-scale-err") {
+                    out.known("lasso-large-scale-err", "fit at large scale returns Ok with coefficients that are not near-optimal");
+                    out.count("known:lasso-large-scale-err:Ok-not-optimal");
+                } else {
+                    out.count("observed:large-scale:Ok-not-near-optimal [reported, no id listed]");
+                }
+            } else {
+                if sub.is_empty() {
+                    out.count(&format!("search:{}:Ok-near-optimal", family));
+                }
+                fails.extend(sub);
+            }
+        }
+    }
+    fails
+}
+
+// ------------------------------------------------------------------------------------------
 // small iteration budgets (valid settings): the fit must return Ok without panic or loop, and whatever it returns
 // must satisfy predict(X) = X*coefficients + intercept = mean(y) + Z*w (near-optimality is not asked for here)
 // ------------------------------------------------------------------------------------------
@@ -767,6 +830,10 @@ fn replay(path: &str) -> i32 {
     let fails = match inp["entry"].as_str().unwrap_or("fit") {
         "invalid" => evaluate_invalid(&c),
         "budget" => evaluate_budget(&c),
+        "alpha-zero" | "large-scale" => {
+            let mut o = Out::new("C08", "replay");
+            evaluate_returns(&c, inp["entry"].as_str().unwrap(), &mut o)
+        }
         _ => evaluate(&c).0,
     };
     if fails.is_empty() {
@@ -791,9 +858,10 @@ fn main() {
     let timing = std::env::var("C08_TIMING").is_ok();
     if std::env::var("C08_PROBE").is_ok() {
         // diagnosis aid (not part of the check): hang / failure frequency per decade of the target scale
-        for dec in -8i32..=10 {
+        for dec in 3i32..=12 {
             for mode in 0..2 {
                 let (mut hang, mut bad, mut okc) = (0, 0, 0);
+                let mut max_ok: f64 = 0.0;
                 let mut first: Option<Case> = None;
                 for i in 0..40 {
                     let mut c = gen_case(&mut rng, 30, 4, i % 2 == 1, false);
@@ -816,12 +884,27 @@ fn main() {
                         Outcome::Ok(f, _) => {
                             let mut fl = vec![];
                             check_fit(&c, &c.y, &f, &rf, &mut fl);
-                            if fl.is_empty() { okc += 1 } else { bad += 1 }
+                            if fl.is_empty() {
+                                okc += 1;
+                                let winf = rf.w_cd.iter().fold(0.0f64, |a, b| a.max(b.abs()));
+                                if rf.l1 * winf > max_ok { max_ok = rf.l1 * winf; }
+                            } else {
+                                bad += 1;
+                                println!("   bad(Ok): n={} p={} alpha={:e} amax={:e} tol={:e} norm={} enet={} :: {}", c.x.len(), c.x[0].len(), c.alpha, rf.alpha_max, c.tol, c.normalize, c.enet, &fl[0].what[..fl[0].what.len().min(160)]);
+                                std::fs::write(format!("/tmp/b08/probe_{}_{}_{}.json", dec, mode, i), serde_json::to_string(&case_json(&c, "fit")).unwrap()).ok();
+                            }
+                        }
+                        Outcome::Err(e, runs) => {
+                            bad += 1;
+                            let winf = rf.w_cd.iter().fold(0.0f64, |a, b| a.max(b.abs()));
+                            println!("      lambda*|w_ref|_inf = {:e}, |yc|^2 = {:e}", rf.l1 * winf, rf.yc.iter().map(|v| v * v).sum::<f64>());
+                            println!("   bad(Err): n={} p={} alpha={:e} amax={:e} tol={:e} norm={} enet={} iters={} :: {}", c.x.len(), c.x[0].len(), c.alpha, rf.alpha_max, c.tol, c.normalize, c.enet, runs.first().map(|r| r.iters.len()).unwrap_or(0), e);
+                            std::fs::write(format!("/tmp/b08/probe_{}_{}_{}.json", dec, mode, i), serde_json::to_string(&case_json(&c, "fit")).unwrap()).ok();
                         }
                         _ => bad += 1,
                     }
                 }
-                println!("decade 1e{} alpha-mode {}: ok {} bad {} hang {}", dec, if mode == 1 { "scaled" } else { "unscaled" }, okc, bad, hang);
+                println!("decade 1e{} alpha-mode {}: ok {} bad {} hang {}  (largest lambda*|w_ref|_inf among ok: {:e})", dec, if mode == 1 { "scaled" } else { "unscaled" }, okc, bad, hang, max_ok);
                 if let Some(c) = first {
                     println!("   first hang: n={} p={} alpha={:e} alpha_max={:e} tol={:e} normalize={} enet={}", c.x.len(), c.x[0].len(), c.alpha, reference(&c, &c.y).alpha_max, c.tol, c.normalize, c.enet);
                 }
@@ -874,6 +957,74 @@ fn main() {
     }
 
     if timing { eprintln!("[c08 timing] {:.1}s before: // ---- correspondence ----", t_start.elapsed().as_secs_f64()); }
+    // ---- the two formerly non-terminating families (both tiers, every run) ----
+    {
+        // witnesses: alpha = 0 (Lasso and ElasticNet) and the 1e8-scale input of the build round
+        let xa = vec![vec![1.0, 2.0], vec![2.0, 0.5], vec![3.0, 1.5], vec![4.0, 3.5], vec![5.0, 2.5]];
+        let ya = vec![-2.1, 1.3, -0.4, -1.9, 1.2];
+        for &enet in &[false, true] {
+            for &normalize in &[false, true] {
+                let c = Case { enet, x: xa.clone(), y: ya.clone(), alpha: 0.0, l1_ratio: if enet { 0.5 } else { 1.0 }, normalize, tol: 1e-4, max_iter: 1000, shift: 0.0 };
+                out.eval(case_key(&c), true);
+                out.count("search:alpha-zero:witness");
+                let fails = evaluate_returns(&c, "alpha-zero", &mut out);
+                record(&mut out, &c, fails, "alpha-zero");
+                corr_case(&mut out, &c, if enet { "enet_fit" } else { "lasso_fit" });
+            }
+        }
+        let xl = vec![vec![1.0, 2.0], vec![2.0, 0.5], vec![3.0, 1.5], vec![4.0, 3.5], vec![5.0, 2.5], vec![6.0, 4.0]];
+        let yl: Vec<f64> = [-2.1, 1.3, -0.4, -1.9, 1.2, 2.0].iter().map(|v| v * 1e8).collect();
+        let c = Case { enet: false, x: xl, y: yl, alpha: 1e8, l1_ratio: 1.0, normalize: false, tol: 1e-4, max_iter: 1000, shift: 0.0 };
+        out.eval(case_key(&c), true);
+        out.count("search:large-scale:witness");
+        let fails = evaluate_returns(&c, "large-scale", &mut out);
+        record(&mut out, &c, fails, "large-scale");
+        corr_case(&mut out, &c, "lasso_fit");
+        let c = Case { enet: false, x: vec![vec![100.0], vec![200.0], vec![300.0], vec![400.0]], y: vec![1e6, -1e6, 2e6, -1.5e6], alpha: 5.625e7, l1_ratio: 1.0, normalize: false, tol: 1e-4, max_iter: 1000, shift: 0.0 };
+        out.eval(case_key(&c), true);
+        out.count("search:large-scale:witness");
+        let fails = evaluate_returns(&c, "large-scale", &mut out);
+        record(&mut out, &c, fails, "large-scale");
+        corr_case(&mut out, &c, "lasso_fit");
+    }
+    // alpha = 0 on random valid data
+    for i in 0..(if a.thorough { 400 } else { 60 }) {
+        if timeouts() >= MAX_TIMEOUTS {
+            out.count("search:skipped-after-8-timeouts");
+            continue;
+        }
+        let enet = i % 2 == 1;
+        let mut c = gen_case(&mut rng, 30, 5, enet, false);
+        c.alpha = 0.0;
+        c.shift = 0.0;
+        out.eval(case_key(&c), true);
+        out.count(&format!("search:alpha-zero:{}", if enet { "enet" } else { "lasso" }));
+        let fails = evaluate_returns(&c, "alpha-zero", &mut out);
+        record(&mut out, &c, fails, "alpha-zero");
+    }
+    // targets at scale 1e8 .. 1e12 x unit, alpha in the quantifier's own range or following the scale, both normalisations
+    for i in 0..(if a.thorough { 1500 } else { 200 }) {
+        if timeouts() >= MAX_TIMEOUTS {
+            out.count("search:skipped-after-8-timeouts");
+            continue;
+        }
+        let enet = i % 2 == 1;
+        let mut c = gen_case(&mut rng, 30, 5, enet, false);
+        let f = 10f64.powf(rng.uniform(8.0, 12.0));
+        for yi in c.y.iter_mut() {
+            *yi *= f;
+        }
+        c.shift = 0.0;
+        c.normalize = i % 4 < 2;
+        if rng.bool() {
+            c.alpha = (c.alpha * f).max(1e-3);
+        }
+        out.eval(case_key(&c), true);
+        out.count(&format!("search:large-scale:{}", if enet { "enet" } else { "lasso" }));
+        let fails = evaluate_returns(&c, "large-scale", &mut out);
+        record(&mut out, &c, fails, "large-scale");
+    }
+
     // ---- correspondence ----
     // every case = one whole fit whose recorded outer iterations (5..40 each) are re-derived one by one
     // by the model inside Coq; shapes up to 16 x 5 (augmented: 21 x 5)
